@@ -332,12 +332,12 @@ func TestCacheConcurrent(t *testing.T) {
 				go func(g int) {
 					defer wg.Done()
 					log(Ev{"e": "start", "g": g, "k": "n1"})
-					ctx, cancel := context.WithTimeout(context.Background(), 10*time.Second)
+					ctx, _, stop := loggedCtx(log, g, 10*time.Second)
 					rr, err := res.Resolve(ctx, "n1.example")
-					cancel()
+					stop()
 					if err != nil {
 						kind := "err"
-						if errors.Is(err, context.DeadlineExceeded) {
+						if errors.Is(err, context.DeadlineExceeded) || errors.Is(err, context.Canceled) {
 							kind = "timeout"
 						}
 						log(Ev{"e": "end", "g": g, "k": "n1", "kind": kind, "gen": -1})
@@ -390,6 +390,26 @@ func TestCacheConcurrent(t *testing.T) {
 // ---- (C) parked interleavings: the clock hook doubles as a scheduler gate. A lookup is parked at its first reading of
 // the clock (after it has looked at the cache entry, before it decides), while the environment moves on and another
 // lookup refreshes the entry; then it is released. The recorded trace is judged by TLC like the concurrent rounds.
+// loggedCtx: a caller's context whose end - by deadline or by cancel() - is logged (event "cancel") BEFORE it takes effect, so that
+// the specification can tell a lookup that failed because its caller gave up from one that had no reason to. stop releases the
+// context without an event (the lookup has returned).
+func loggedCtx(log func(Ev), g int, d time.Duration) (ctx context.Context, cancel func(), stop func()) {
+	ctx, end := context.WithCancel(context.Background())
+	var once sync.Once
+	cancel = func() {
+		once.Do(func() {
+			log(Ev{"e": "cancel", "g": g})
+			end()
+		})
+	}
+	tm := time.AfterFunc(d, cancel)
+	stop = func() {
+		tm.Stop()
+		once.Do(end)
+	}
+	return ctx, cancel, stop
+}
+
 func TestCacheParked(t *testing.T) {
 	out := os.Getenv("VH_OUT")
 	if out == "" {
@@ -435,14 +455,14 @@ func TestCacheParked(t *testing.T) {
 						var cmu sync.Mutex
 						lookup = func(g int) {
 							log(Ev{"e": "start", "g": g, "k": "n1"})
-							ctx, cancel := context.WithTimeout(context.Background(), 10*time.Second)
+							ctx, cancel, stop := loggedCtx(log, g, 10*time.Second)
 							if g == 2 {
 								cmu.Lock()
 								cancelParked = cancel
 								cmu.Unlock()
 							}
 							rr, err := res.Resolve(ctx, "n1.example")
-							cancel()
+							stop()
 							if err != nil {
 								kind := "err"
 								if errors.Is(err, context.Canceled) || errors.Is(err, context.DeadlineExceeded) {
